@@ -21,7 +21,7 @@ func init() {
 		ID:  "C19",
 		Run: runC19,
 		Decided: "five necessary structural clauses only: both queues touch their state only under their mutex, the lock-free helper is called only under it (R1); in the prefix queue every deque insertion is paired with a trie insertion of the same prefix and every removal with a trie removal, Push considers every prefix it is given, Clear empties both (R2); " +
-			"every component count the persisted key format can produce (an empty prefix vanishes under datastore key cleaning) is accepted by the reader, and Persist replaces the persisted state on every successful return (R3); the last key leaving a prefix removes the prefix (R4); a dequeue prunes exactly the subtrie it returns, and a prefix is only ever enqueued together with at least one key (R5).",
+			"every component count the persisted key format can produce (an empty prefix vanishes under datastore key cleaning) is accepted by the reader, and Persist replaces the persisted state on every successful return (R3); the last key leaving a prefix removes the prefix (R4); a dequeue prunes exactly the subtrie it returns, and a prefix is only ever enqueued together with at least one key (R5). Round 4: in both batching loops of Persist the turn's operation is counted before the full-batch test runs (R3).",
 		NotDecided: "THE BEHAVIOURAL CORE: conformance to the ordered-map contract over all operation histories (exactly-once, oldest-first, absorption position), which is a statement about runtime trie contents.",
 	})
 }
